@@ -31,8 +31,10 @@ TRUSTED = [
     "histogram bins are cited, not re-proved; the mechanisms' own guarantees are C01/C02",
 ]
 UNPROVED = [
-    "tool_privloss for the nan-variants is proved only in the NaN-free region (nanmean_privloss_partial …): the code "
-    "configures the sensitivity with array.size although NaNs do not contribute (counter-examples proved in Lean)",
+    "tool_privloss for the nan-variants — scalar and axis= forms — is proved only in the NaN-free region "
+    "(nanmean/nanvar/nanstd[_axis]_privloss_partial; nansum[_axis]_privloss_partial on all data when 0 lies within the "
+    "bounds): the code configures the sensitivity with array.size although NaNs do not contribute (counter-examples "
+    "proved in Lean)",
     "weighted histograms: hist_sens is about counts; with weights the input moves by the weight (counter-example proved)",
     "float rounding of epsilon/size summed over the cells is validated numerically (1e-9), not proved",
 ]
